@@ -113,6 +113,11 @@ type handlerExit struct {
 // simulateHandler follows the control flow of a recover handler for a recovered value whose dynamic type is dyn
 // (nil: a type that no assertion in the handler names and that implements no non-empty interface).
 func simulateHandler(h *ssa.Function, dyn types.Type) []handlerExit {
+	return simulateHandlerX(h, dyn, false)
+}
+
+// simulateHandlerX with any=true follows both sides of every type assertion (the recovered value is arbitrary).
+func simulateHandlerX(h *ssa.Function, dyn types.Type, any bool) []handlerExit {
 	var exits []handlerExit
 	seen := map[*ssa.BasicBlock]bool{}
 	var walk func(b *ssa.BasicBlock)
@@ -135,7 +140,7 @@ func simulateHandler(h *ssa.Function, dyn types.Type) []handlerExit {
 			take := -1
 			switch cnd := x.Cond.(type) {
 			case *ssa.Extract:
-				if ta, ok := cnd.Tuple.(*ssa.TypeAssert); ok && ta.CommaOk && cnd.Index == 1 && fromRecover(ta.X) {
+				if ta, ok := cnd.Tuple.(*ssa.TypeAssert); ok && ta.CommaOk && cnd.Index == 1 && fromRecover(ta.X) && !any {
 					if it, ok := ta.AssertedType.Underlying().(*types.Interface); ok {
 						switch {
 						case it.Empty():
@@ -250,7 +255,7 @@ func ruleInterruptUnwind(c *Ctx, r *R) {
 			r.bad("wrapper:"+ssaFuncName(wrapper), c.Pos(wrapper.Pos()), ssaFuncName(wrapper)+" runs the interrupt function without a recover handler: its panic is not marked, and the try statement's handler converts it into a value the script's catch clause receives")
 		} else {
 			okAll := true
-			exits := simulateHandler(wrapHandler, nil)
+			exits := simulateHandlerX(wrapHandler, nil, true)
 			for _, e := range exits {
 				if e.kind == "wrap" {
 					if marker != nil && !types.Identical(marker, e.typ) {
